@@ -29,7 +29,7 @@ Theorem C05_flag_algebra_sound :
                   flags_okb v' (sorted_part (reverse_sorted f)) = true) /\
   (forall v v' cur taken, flags_okb v' cur = true -> flags_okb v (sorted_part taken) = true ->
                   (match v' with VBox _ _ | VChar _ _ => True | _ => antitone_rows v v' end) ->
-                  flags_okb v' (or_sorted_rev true v' cur taken) = true).
+                  flags_okb v' (or_sorted_rev cur_ver v' cur taken) = true).
 Proof. exact flag_algebra_sound. Qed.
 
 (** sorting produces rows in ascending order of C15's ordering, for every element type *)
@@ -50,11 +50,51 @@ Theorem C05_neg_chars_mark_refuted_pre :
     p_neg_chars false m swapped = Ok r /\ wfb r = false.
 Proof. exact neg_chars_mark_refuted_pre. Qed.
 
-(** the faithful model of the CURRENT mark rule of floor/ceil/round violates the property
-    (confirmed on the implementation: `⌊⍆[ℂ5 1.2 ℂ0 1.7]`) *)
-Theorem C05_floor_rule_refuted :
-  exists a out f, wf a /\ rule_flags RFloor [a] out = Some f /\ wf_shape out = true /\ flags_okb out f = false.
-Proof. exact floor_rule_refuted. Qed.
+(** records of the mark defects repaired by the round-2 fix: commits (model of the code before
+    them, [fixed = false]), each confirmed on the implementation at the time:
+    f306b49 floor/ceil/round on complex and box arrays (`⌊⍆[ℂ5 1.2 ℂ0 1.7]`) *)
+Theorem C05_floor_rule_refuted_pre :
+  exists a out f, wf a /\ rule_flags false RFloor [a] out = Some f /\ wf_shape out = true /\ flags_okb out f = false.
+Proof. exact floor_rule_refuted_pre. Qed.
+(** eea1d01 `+ ⍆[¯∞ 1] ⍆[∞ ∞]`, 60de79d `÷ ¯0 ⇌⍆[0.5 149 ¯∞]`, 9703aa4 `÷ ⍆[¯1 1] 1` *)
+Theorem C05_dyadic_rules_refuted_pre :
+  rule_truthful false RAdd [w_add_a; w_add_b] w_add_out = false /\
+  rule_truthful false RDiv [w_div0_a; w_div0_b] w_div0_out = false /\
+  rule_truthful false RDiv [w_dvd_a; w_dvd_b] w_dvd_out = false.
+Proof. exact dyadic_rules_refuted_pre. Qed.
+
+(** the CURRENT rules on those classes: rounding gives sortedness marks to arrays of real
+    numbers only, and is truthful whenever it maps the argument's rows monotonically *)
+Theorem C05_round_rule_fixed_nonreal : forall p a out f, is_round p = true -> is_num_ty out = false ->
+  rule_flags true p [a] out = Some f -> f_up f = false /\ f_down f = false.
+Proof. exact round_rule_fixed_nonreal. Qed.
+Theorem C05_round_rule_fixed : forall p a out f, is_round p = true ->
+  flags_okb (mv_v a) (mv_f a) = true -> rule_flags true p [a] out = Some f ->
+  (f_bool (mv_f a) = true -> bool_ok out = true) ->
+  (is_num_ty out = true -> monotone_rows (mv_v a) out) -> flags_okb out f = true.
+Proof. exact round_rule_fixed. Qed.
+(** the repaired dyadic rules are truthful on the former witnesses, take marks from lists of
+    real numbers only (never from the dividend side) and are truthful whenever the marks
+    or-ed in hold of the result (NaN results excepted by the guard) *)
+Theorem C05_dyadic_rules_fixed_witnesses :
+  rule_truthful true RAdd [w_add_a; w_add_b] w_add_out = true /\
+  rule_truthful true RDiv [w_div0_a; w_div0_b] w_div0_out = true /\
+  rule_truthful true RDiv [w_dvd_a; w_dvd_b] w_dvd_out = true.
+Proof. exact dyadic_rules_fixed_witnesses. Qed.
+Theorem C05_pre_signed_fixed_guard : forall left a b l f, pre_signed true left a b l = Some f ->
+  rank_le1 (mv_v a) = true /\ is_num_ty (mv_v a) = true /\ (forall s, left = Some s -> l = s).
+Proof. exact pre_signed_fixed_guard. Qed.
+Theorem C05_pre_scalar_fixed_guard : forall left a b l f, pre_scalar true left a b l = Some f ->
+  rank_le1 (mv_v a) = true /\ (is_num_ty (mv_v a) || is_char_ty (mv_v a)) = true.
+Proof. exact pre_scalar_fixed_guard. Qed.
+Theorem C05_pre_both_fixed_guard : forall a b f, pre_both true a b = Some f ->
+  rank_le1 (mv_v a) = true /\ rank_le1 (mv_v b) = true /\ nan_at_end (mv_v a) = false /\ nan_at_end (mv_v b) = false.
+Proof. exact pre_both_fixed_guard. Qed.
+Theorem C05_handle_pre_sound : forall ng res resf pa pb,
+  flags_okb res resf = true ->
+  (forall g, or_else pa pb = Some g -> ng && has_nan res = false -> flags_okb res (sorted_part g) = true) ->
+  flags_okb res (handle_pre ng res resf pa pb) = true.
+Proof. exact handle_pre_sound. Qed.
 
 (** non-vacuity: a non-trivial well-formed marked argument and a run of the model on it *)
 Example C05_nonvacuous :
@@ -71,4 +111,12 @@ Print Assumptions C05_sort_sorted.
 Print Assumptions C05_range_bytes_wf.
 Print Assumptions C05_neg_chars_repaired.
 Print Assumptions C05_neg_chars_mark_refuted_pre.
-Print Assumptions C05_floor_rule_refuted.
+Print Assumptions C05_floor_rule_refuted_pre.
+Print Assumptions C05_dyadic_rules_refuted_pre.
+Print Assumptions C05_round_rule_fixed_nonreal.
+Print Assumptions C05_round_rule_fixed.
+Print Assumptions C05_dyadic_rules_fixed_witnesses.
+Print Assumptions C05_pre_signed_fixed_guard.
+Print Assumptions C05_pre_scalar_fixed_guard.
+Print Assumptions C05_pre_both_fixed_guard.
+Print Assumptions C05_handle_pre_sound.
